@@ -115,6 +115,40 @@ def scale_metamorphic(ctx, stream, count, rng):
     ctx.streams[stream] = dict(cases=n, deviations=bad)
 
 
+def exhaustive_small(ctx, stream):
+    """thorough tier: EVERY simple-vote profile over <= 3 candidates with totals 0..3, every n, scaled by 2, 7/3 and 10^17+3, for every
+    scale-free simple-vote evaluator of the registry"""
+    reg = evalreg.registry()
+    names = [n for n, e in reg.items() if e['scale_free'] and e['vtype'] == 'simple']
+    bad = n = 0
+    for m in (1, 2, 3):
+        for vals in itertools.product(range(0, 4), repeat=m):
+            if sum(vals) == 0:
+                continue
+            prof = [[i + 1, v] for i, v in enumerate(vals)]
+            for name in names:
+                e = reg[name]
+                for seats in range(1, m + 1):
+                    base = evalreg.outcome(e, prof, seats)
+                    for k in (2, '7/3', 10 ** 17 + 3):
+                        if e['max_k'] and q(k) > e['max_k']:
+                            continue
+                        sc = evalreg.outcome(e, prof, seats, scale=q(k))
+                        n += 1
+                        ctx.evaluations += 1
+                        b, s2 = base[1:], sc[1:]
+                        if name == 'pure_proportionality' and sc[0] == 'ok':
+                            s2 = ((sc[1][0], tuple((kk, v) for kk, v in sc[1][1])),) + tuple(sc[2:])
+                        if base[0] != sc[0] or b != s2:
+                            bad += 1
+                            ctx.checker_false += 1
+                            ctx.report(stream, dict(kind='scale', evaluator=name, profile=prof, n=seats, k=jq(q(k))), str(sc[1:]), str(base[1:]),
+                                       '%s: outcome changes under %s-fold scaling' % (name, k),
+                                       known_class=lambda c, io, mo: 'C11-mj-default-scale' if c.get('evaluator') == 'mj_default' else None)
+    ctx.dist['stream:' + stream] += n
+    ctx.streams[stream] = dict(cases=n, deviations=bad, exhaustive=True)
+
+
 # ------------------------------------------------------------------ int vs Fraction representation at near-tie magnitudes
 NEARK = [2 ** 52 + 1, 2 ** 52 + 2, 2 ** 53, 2 ** 53 + 1, 10 ** 16 + 1, 10 ** 30 + 1]
 
@@ -318,7 +352,7 @@ def replay_case(ctx, c, stream):
     elif c.get('kind') == 'scale':
         e = evalreg.registry()[c['evaluator']]
         base = evalreg.outcome(e, c['profile'], c['n'])
-        sc = evalreg.outcome(e, c['profile'], c['n'], scale=c['k'])
+        sc = evalreg.outcome(e, c['profile'], c['n'], scale=q(c['k']))
         ctx.evaluations += 1
         if (base[0], base[1]) != (sc[0], sc[1]):
             ctx.checker_false += 1
@@ -348,6 +382,8 @@ def explore(ctx, widen=1):
     near_tie_checks(ctx, 'near-tie', ctx.n(150, 2000), rng)
     exact_type_checks(ctx, 'exact-types', ctx.n(300, 4000), rng)
     score_magnitude_check(ctx, 'score-magnitude')
+    if ctx.tier == 'thorough':
+        exhaustive_small(ctx, 'exhaustive-small-simple')
 
 
 def replay(ctx, case, stream=None):
